@@ -22,6 +22,7 @@ import SpsdkVerif.Proofs.AhabRom3
 import SpsdkVerif.Proofs.AhabCert
 import SpsdkVerif.Proofs.AhabZero
 import SpsdkVerif.Proofs.AhabResign
+import SpsdkVerif.Generated.AhabVerifierRecs
 
 namespace SpsdkVerif.C06
 open SpsdkVerif SpsdkVerif.Misc SpsdkVerif.Ahab SpsdkVerif.AhabVerify
@@ -880,6 +881,62 @@ theorem entry_update_idempotent (c : CryptoOps) (hc : CryptoLaws c) (ch : Chip) 
     (h : readyEntry c ch v dek e = .ok r) : reReady c ch v e r = .ok r :=
   reReady_fix c hc ch v dek e r h
 
+/-! ## 13. Phase 3: the record functions of `spsdk/utils/verifier.py` (GENERATED branch tables) agree with the model verifier -/
+
+/-- does one `if` test of `Verifier.add_record_bit_range` / `add_record_range` hold (`none`: a test the generator does not know)?
+    `notInBitRange` = `not check_range(value, end=(1 << bit_range) - 1)` with the generated `check_range` and its generated
+    default `start`; `r.hi` of a bit-range record is `(1 << bit_range) - 1` -/
+def condHolds (r : AhabConsts.RangeRec) (v : Option Int) : AhabVerifierRecs.RCond → Option Bool
+  | .isNone => some v.isNone
+  | .notInBitRange =>
+    match v with
+    | some x => (match PyFuns.check_range x AhabVerifierRecs.checkRangeDefaultStart r.hi with | .ok b => some (!b) | .error _ => none)
+    | none => none
+  | .ltMin => v.map (fun x => decide (x < r.lo))
+  | .gtMax => v.map (fun x => decide (x > r.hi))
+  | .otherwise => some true
+  | .unknown _ => none
+
+/-- the `VerifierResult` of the record a generated if-chain adds -/
+def verdict (r : AhabConsts.RangeRec) (v : Option Int) : List (AhabVerifierRecs.RCond × String) → String
+  | [] => "NONE"
+  | (cnd, res) :: rest =>
+    match condHolds r v cnd with
+    | some true => res
+    | some false => verdict r v rest
+    | none => "UNKNOWN"
+
+/-- AGREEMENT: for every record, every value (or `None`), the model verifier reports an ERROR exactly when the if-chain extracted
+    from `spsdk/utils/verifier.py` adds an ERROR record - and otherwise the chain adds SUCCEEDED (never a warning, never nothing).
+    A changed comparison, a dropped `None` test or another result constant in verifier.py regenerates another table and this
+    theorem no longer holds. -/
+theorem verifier_records_agree (r : AhabConsts.RangeRec) (v : Option Int) :
+    (recFails r v = true ↔
+      verdict r v (if r.viaCheckRange then AhabVerifierRecs.bitRangeBranches else AhabVerifierRecs.rangeBranches) = "ERROR") ∧
+    (recFails r v = false ↔
+      verdict r v (if r.viaCheckRange then AhabVerifierRecs.bitRangeBranches else AhabVerifierRecs.rangeBranches) = "SUCCEEDED") := by
+  have hs : AhabVerifierRecs.checkRangeDefaultStart = 0 := rfl
+  cases v with
+  | none =>
+    cases hv : r.viaCheckRange <;>
+      simp [recFails, verdict, condHolds, AhabVerifierRecs.bitRangeBranches, AhabVerifierRecs.rangeBranches]
+  | some x =>
+    cases hv : r.viaCheckRange
+    · simp only [recFails, hv, verdict, condHolds, AhabVerifierRecs.rangeBranches, Option.isNone, Option.map, Bool.false_eq_true, if_false]
+      by_cases h1 : x < r.lo <;> by_cases h2 : x > r.hi <;> simp [h1, h2]
+    · simp only [recFails, hv, verdict, condHolds, AhabVerifierRecs.bitRangeBranches, Option.isNone, if_true, hs, PyFuns.check_range]
+      by_cases h1 : 0 ≤ x <;> by_cases h2 : x ≤ r.hi <;> simp [h1, h2]
+
+/-- the default arguments the generator of the record tables relies on are the ones in the source: `bit_range = 32`,
+    `min_val = 0`, `max_val = 2^32 - 1`; `check_range(start = 0, end = 2^32 - 1)`; every bit-range record of the AHAB verify()
+    trees has `lo = 0` and `hi = 2^bits - 1` for a width in {4, 8, 16, 32, 64} -/
+theorem verifier_defaults :
+    AhabVerifierRecs.bitRangeDefaultBits = 32 ∧ AhabVerifierRecs.rangeDefaultMin = 0 ∧ AhabVerifierRecs.rangeDefaultMax = 4294967295 ∧
+    AhabVerifierRecs.checkRangeDefaultStart = 0 ∧ AhabVerifierRecs.checkRangeDefaultEnd = 4294967295 ∧
+    ∀ r ∈ AhabConsts.recsHeader ++ AhabConsts.recsContainer ++ AhabConsts.recsIae ++ AhabConsts.recsSigBlock ++ AhabConsts.recsSigBlockV2 ++
+        AhabConsts.recsSrkRecord ++ AhabConsts.recsBlob ++ AhabConsts.recsCertificate, r.viaCheckRange = true →
+      r.lo = 0 ∧ ∃ b ∈ [4, 8, 16, 32, 64], r.hi = 2 ^ b - 1 := by decide
+
 /-! ## non-vacuity and sanity checks (decidable instances of the hypotheses) -/
 
 def exChip : Chip := ⟨(findChip "mimxrt1189" "latest").getD (AhabConsts.chips.headD default), "standard"⟩ where
@@ -903,6 +960,11 @@ example : failed AhabConsts.recsContainer (containerEnv .v1 (exVC 65535 255 0xFF
 example : failed AhabConsts.recsContainer (containerEnv .v1 (exVC 65536 0 0)) = ["SW version"] := by decide
 example : failed AhabConsts.recsContainer (containerEnv .v1 (exVC 0 256 0)) = ["Fuse version"] := by decide
 example : failed AhabConsts.recsContainer (containerEnv .v1 (exVC 0 0 0x100000000)) = ["Flags"] := by decide
+
+example : verdict ⟨"SW version", "sw_version", 0, 65535, true⟩ (some 65536) AhabVerifierRecs.bitRangeBranches = "ERROR" ∧
+    verdict ⟨"SW version", "sw_version", 0, 65535, true⟩ (some 65535) AhabVerifierRecs.bitRangeBranches = "SUCCEEDED" ∧
+    verdict ⟨"x", "x", 16, 64, false⟩ (some 15) AhabVerifierRecs.rangeBranches = "ERROR" ∧
+    verdict ⟨"x", "x", 16, 64, false⟩ none AhabVerifierRecs.rangeBranches = "ERROR" := by decide
 
 /-! ### Phase 3 non-vacuity: a concrete image (NAND start address, one container, one image) satisfies every hypothesis of
     `unused_slots_zero` / `no_phantom_container` / `layout_never_collides` / `update_fields_idempotent`, and the conclusions are
